@@ -554,22 +554,122 @@ def _project_col(column):
             "m": [] if column.mask is None else [[int(x) for x in column.mask.array.tolist()]]}
 
 
+WRITE_OPS = [["set_data", "none", False], ["set_data", "none", True], ["set_mask", "none", False],
+             ["set_mask", "none", True], ["assign", "none", False]]
+T_HI = {1: 127, 2: 32767, 3: 2 ** 31 - 1, 4: 255, 5: 65535, 6: 2 ** 31 - 1}
+
+
+def _bumped(values, t):
+    """BcifColumn.tla Bump on the rows `values` (a numpy array) of a column of BinaryCIF type t: a value of the same
+    dtype that differs and needs no rounding arithmetic."""
+    import numpy as np
+
+    if t == STR_T:
+        return np.array([("c" if not x else ("a" if x[0] == "c" else "c") + x[1:]) for x in values.tolist()],
+                        dtype=values.dtype)
+    if t in (32, 33):
+        out = values.copy()
+        for i, x in enumerate(values.tolist()):
+            out[i] = 0.0 if x != x else 1.0 if x == 0 else -x
+        return out
+    out = values.copy()
+    for i, x in enumerate(values.tolist()):
+        out[i] = x - 1 if x >= T_HI[t] else x + 1
+    return out
+
+
+def can_write_in_place(col, op):
+    """Whether the in-place write `op` can be performed on the arrays the column holds (a read-only array, e.g. one
+    decoded from a file, cannot; the generator of S3 then re-assigns the column instead)."""
+    if op[0] == "set_data":
+        return bool(col.data.array.flags.writeable)
+    if op[0] == "set_mask":
+        return col.mask is None or bool(col.mask.array.flags.writeable)
+    return True
+
+
+def apply_op(cat, name, t, op):
+    """One operation of BcifColumn.tla Ops on column `name` of the category `cat` (t: BinaryCIF type of its data).
+    -> (outcome, out): out = what the operation serialised, read back and projected ({"oc": "ok", "c": column} /
+    {"oc": "Rejected"}), or {"oc": "none"} for operations that serialise nothing."""
+    import warnings
+    import numpy as np
+    import biotite.structure.io.pdbx as px
+
+    kind = op[0]
+    col = cat[name]
+    none = {"oc": "none", "c": None}
+    if kind in ("as_array", "as_item"):
+        return apply_read_op(col, op), none
+    if kind in ("serialize", "write", "compress"):
+        with warnings.catch_warnings():
+            warnings.simplefilter("ignore")
+            try:
+                if kind == "serialize":
+                    back = px.BinaryCIFColumn.deserialize(col.serialize())
+                elif kind == "compress":
+                    back = px.BinaryCIFColumn.deserialize(px.compress(col).serialize())
+                else:
+                    buf = io.BytesIO()
+                    px.BinaryCIFFile({"b": px.BinaryCIFBlock({"c": px.BinaryCIFCategory({"x": col})})}).write(buf)
+                    buf.seek(0)
+                    back = px.BinaryCIFFile.read(buf)["b"]["c"]["x"]
+                return "ok", {"oc": "ok", "c": _project_col(back)}
+            except Exception:  # noqa: BLE001
+                return "Rejected", {"oc": "Rejected", "c": None}
+    # write operations of the owner: exceptions are errors of the driver (the generators only choose possible ones)
+    if kind == "set_data":
+        a = col.data.array
+        idx = slice(None) if op[2] else slice(len(a) - 1, len(a))
+        a[idx] = _bumped(a[idx], t)
+    elif kind == "set_mask":
+        if col.mask is not None:
+            m = col.mask.array
+            idx = slice(None) if op[2] else slice(len(m) - 1, len(m))
+            m[idx] = (m[idx] + 1) % 3
+    elif kind == "assign":
+        a = col.data.array
+        cat[name] = px.BinaryCIFColumn(
+            px.BinaryCIFData(_bumped(np.array(a, copy=True), t)),
+            None if col.mask is None else px.BinaryCIFData((np.array(col.mask.array, copy=True) + 1) % 3))
+    else:
+        raise KeyError(kind)
+    return "ok", none
+
+
 def run_column(C, hist):
-    """Build the column, perform the accesses; -> the column in memory and as read back from a written file."""
+    """Build the column inside a file, perform the operations; -> the outcome of every operation, what every
+    serialisation among them gave back, the column in memory afterwards and as read back from the written file."""
     import biotite.structure.io.pdbx as px
 
     col = px.BinaryCIFColumn(px.BinaryCIFData(to_numpy(C["d"])),
                              None if not C["m"] else px.BinaryCIFData(to_numpy({"t": 4, "v": C["m"][0]})))
-    ocs = [apply_read_op(col, op) for op in hist]
-    out = {"ocs": ocs, "mem": _project_col(col), "file": None}
+    cat = px.BinaryCIFCategory({"x": col})
+    f = px.BinaryCIFFile({"b": px.BinaryCIFBlock({"c": cat})})
+    ocs, outs = [], []
+    for op in hist:
+        oc, o = apply_op(cat, "x", C["d"]["t"], op)
+        ocs.append(oc)
+        outs.append(o)
+    out = {"ocs": ocs, "outs": outs, "mem": _project_col(cat["x"]), "fin": None}
     try:
         buf = io.BytesIO()
-        px.BinaryCIFFile({"b": px.BinaryCIFBlock({"c": px.BinaryCIFCategory({"x": col})})}).write(buf)
+        f.write(buf)
         buf.seek(0)
-        out["file"] = _project_col(px.BinaryCIFFile.read(buf)["b"]["c"]["x"])
+        out["fin"] = {"oc": "ok", "c": _project_col(px.BinaryCIFFile.read(buf)["b"]["c"]["x"])}
     except Exception as e:  # noqa: BLE001
-        out["file"] = {"error": type(e).__name__}
+        out["fin"] = {"oc": "Rejected", "c": None, "error": type(e).__name__}
     return out
+
+
+def _same_out(want, got):
+    return want["oc"] == got["oc"] and (want["oc"] != "ok" or want["c"] == got["c"])
+
+
+def column_case_agrees(exp, r):
+    """exp = {"mem", "outs", "fin"} from the specification, r = run_column(...)."""
+    return (r["mem"] == exp["mem"] and len(r["outs"]) == len(exp["outs"])
+            and all(_same_out(w, g) for w, g in zip(exp["outs"], r["outs"])) and _same_out(exp["fin"], r["fin"]))
 
 
 def exec_column_cases(item):
@@ -583,9 +683,11 @@ def exec_column_cases(item):
         for op, oc in zip(case["hist"], r["ocs"]):
             key = f"{op[0]}:{oc}"
             ocs[key] = ocs.get(key, 0) + 1
-        if r["mem"] != case["exp"] or r["file"] != case["exp"]:
+        ocs[f"final_write:{r['fin']['oc']}"] = ocs.get(f"final_write:{r['fin']['oc']}", 0) + 1
+        exp = {"mem": case["exp"], "outs": case["outs"], "fin": case["fin"]}
+        if not column_case_agrees(exp, r):
             mism.append({"kind": "column", "col": case["col"], "hist": case["hist"], "sit": case["sit"],
-                         "expected": case["exp"], "observed": r})
+                         "expected": exp, "observed": r})
     return {"mismatch": mism, "n": n, "ocs": ocs}
 
 
@@ -725,7 +827,7 @@ def gen_trace(item):
     rng = random.Random(item["seed"])
     events = []
     for _ in range(item["n"]):
-        kind = rng.choice(["chain"] * 6 + ["compress"] * 3 + ["compressx"] * 3 + ["file"])
+        kind = rng.choice(["chain"] * 6 + ["compress"] * 3 + ["compressx"] * 3 + ["file"] * 2)
         n = rng.choice([0, 1, 1, 2, 3, 5, 8, 13, 21, 40, 60])
         family = rng.choice(["int", "int", "float", "float", "str"])
         if kind == "file":
@@ -881,14 +983,24 @@ def _file_event(rng):
                                         None if not M else px.BinaryCIFData(to_numpy(M[0], rp[1])))
     f = px.BinaryCIFFile({"b": px.BinaryCIFBlock({"c": px.BinaryCIFCategory(cats)})})
 
-    def accesses(file):
-        hist = []
-        for _ in range(rng.choice([0, 1, 2, 3])):
+    def operations(file):
+        """0-4 operations on random columns: read accesses, in-place writes of the data / mask array, re-assignment;
+        every serialize / write among them is read back."""
+        hist, outs = [], []
+        cat = file["b"]["c"]
+        for _ in range(rng.choice([0, 1, 2, 3, 4])):
             j = rng.randrange(len(cin))
-            op = rng.choice(READ_OPS)
-            apply_read_op(file["b"]["c"][cin[j]["name"]], op)
+            op = rng.choice(READ_OPS) if rng.random() < 0.55 else rng.choice(WRITE_OPS)
+            name = cin[j]["name"]
+            if not can_write_in_place(cat[name], op):
+                op = WRITE_OPS[-1]
+            _oc, o = apply_op(cat, name, cin[j]["A"]["t"], op)
             hist.append([j + 1, op])
-        return hist
+            if op[0] in ("serialize", "write"):
+                c = o["c"] or {"d": {"t": 0, "v": []}, "m": []}
+                outs.append({"k": len(hist), "oc": o["oc"], "A": c["d"],
+                             "M": [] if not c["m"] else [{"t": 4, "v": c["m"][0]}]})
+        return hist, outs
 
     def written(file):
         buf = io.BytesIO()
@@ -901,18 +1013,20 @@ def _file_event(rng):
         return g, cout, bool(g == file) and bool(file == g)
 
     err = lambda e: [{"name": "<%s>" % type(e).__name__, "A": {"t": 0, "v": []}, "M": []}]  # noqa: E731
-    ev = {"kind": "file", "cin": cin, "reps": reps, "hist": [], "cout": [], "eq": False,
-          "hist2": [], "cout2": [], "eq2": False}
+    ev = {"kind": "file", "cin": cin, "reps": reps, "hist": [], "outs": [], "werr": False, "cout": [], "eq": False,
+          "hist2": [], "outs2": [], "werr2": False, "cout2": [], "eq2": False}
+    ev["hist"], ev["outs"] = operations(f)
     try:
-        ev["hist"] = accesses(f)
         g, ev["cout"], ev["eq"] = written(f)
     except Exception as e:  # noqa: BLE001
+        ev["werr"] = True
         ev["cout"] = ev["cout2"] = err(e)
         return ev
+    ev["hist2"], ev["outs2"] = operations(g)
     try:
-        ev["hist2"] = accesses(g)
         _h, ev["cout2"], ev["eq2"] = written(g)
     except Exception as e:  # noqa: BLE001
+        ev["werr2"] = True
         ev["cout2"] = err(e)
     return ev
 
@@ -960,7 +1074,7 @@ def replay(record):
     if record.get("kind") == "column":
         r = run_column(record["col"], record["hist"])
         return {"observed": r, "expected": record["expected"],
-                "mismatch": r["mem"] != record["expected"] or r["file"] != record["expected"]}
+                "mismatch": not column_case_agrees(record["expected"], r)}
     if record.get("kind") == "event" and record.get("ekind") == "compressx":
         r = run_compress_sci(record["A"], record["T"], record.get("rep", "native"), record.get("level", "data"))
         return {"observed": r, "input": record["A"], "recorded": {k: record.get(k) for k in ("oc", "B", "packed")},
@@ -1002,8 +1116,14 @@ def run(ctx):
         "machine is little-endian; the INT_MIN values of the recorded uint64 Delta defect are not pushed through "
         "IntegerPacking (Dom_RepSafe)",
         "columns with histories: int8 / int32 / float32 / float64 / string columns of 1-2 (thorough 3) rows with every "
-        "mask pattern class, histories of at most 2 (thorough 3) read accesses; the outcome and the returned value of "
-        "an access are not judged (the property speaks about what is written afterwards), only the column after it",
+        "mask pattern class, histories of at most 2 (thorough 3) operations: read accesses, in-place writes into the "
+        "data / mask array the column holds (through column.data.array / column.mask.array; one row or all rows; the new "
+        "value is Bump: neighbouring integer, negated float, first character replaced), re-assignment of the column; the "
+        "outcome and the returned value of a read access are not judged, only the column after it; every serialize / "
+        "write / compress in a history is read back and must give the content of that moment; a serialize / write of a "
+        "string column whose data hold a string outside the table an earlier serialisation filled into its encoding is "
+        "refused (outcome of the model, the property allows refusals); float columns hold multiples of 1/4, on which "
+        "compress() at its default tolerance is exact; in recorded files in-place writes are only chosen on writable arrays",
         "trusted: TLC, the TLA+ value parser, the float <-> fixed-point projection (fractions.Fraction), numpy, msgpack",
     ]
     ctx.cov["rule"] = ("non-trivial = case whose chain has >= 2 encodings or a lossy encoding, or whose array has "
@@ -1194,10 +1314,17 @@ def run(ctx):
     ctx.cov["column_cases"] = len(hdone)
     ctx.cov["column_cases_per_history_length"] = per_len
     ctx.cov["column_cases_per_situation"] = per_hsit
-    if not {"PlaceholderIntoStoredDtype", "PlaceholderIntoOtherDtype", "AccessWithoutWrite"} <= set(per_hsit) \
-            or len(per_len) < 3:
+    if not {"PlaceholderIntoStoredDtype", "PlaceholderIntoOtherDtype", "AccessWithoutWrite",
+            "DataWrittenBetweenSerialisations", "MaskWrittenBetweenSerialisations", "ReassignedBetweenSerialisations",
+            "RefusedStringOutsideTable"} <= set(per_hsit) or len(per_len) < 3:
         raise Vacuity(f"MCColumn: situations / history lengths not all enumerated: {per_hsit} {per_len}")
-    hcases = [{k: s[k] for k in ("col", "hist", "exp", "sit")} for s in hdone]
+    per_out = {}
+    for s in hdone:
+        for op, o in zip(s["hist"] + [["final_write"]], s["outs"] + [s["fin"]]):
+            if o["oc"] != "none":
+                per_out[f"{op[0]}:{o['oc']}"] = per_out.get(f"{op[0]}:{o['oc']}", 0) + 1
+    ctx.cov["column_serialisations_expected"] = per_out
+    hcases = [{k: s[k] for k in ("col", "hist", "exp", "outs", "fin", "sit")} for s in hdone]
     ctx.rng.shuffle(hcases)
     hres = helpers.run_pool(ctx, "harness.drivers.c05:exec_column_cases",
                             [{"cases": c} for c in helpers.chunked(hcases, 150)], stage="S2")
@@ -1208,7 +1335,8 @@ def run(ctx):
             hocs[k] = hocs.get(k, 0) + v
     ctx.cov["column_cases_executed"] = nh
     ctx.cov["column_access_outcomes"] = hocs
-    if nh != len(hcases) or any(f"{op}:ok" not in hocs for op in ("as_array", "as_item", "serialize", "compress", "write")):
+    if nh != len(hcases) or any(f"{op}:ok" not in hocs for op in (
+            "as_array", "as_item", "serialize", "compress", "write", "set_data", "set_mask", "assign", "final_write")):
         raise Vacuity(f"S2 columns: an access never succeeded / cases not executed: {nh} of {len(hcases)}, {hocs}")
     ctx.traces_validated += nh
     ctx.evaluations += nh
@@ -1302,6 +1430,7 @@ def run(ctx):
         rec = {"stage": "S2" if tid <= n_s2 else "S3", "kind": "event", "ekind": e["kind"],
                "tlc_known": verdict == "known", "kb": kb, "expected": {"oc": exp}, "trace": tid, "event": l}
         for k in ("A", "chain", "T", "rep", "level", "B", "oc", "cin", "reps", "hist", "cout", "eq", "hist2", "cout2", "eq2",
+                  "outs", "werr", "outs2", "werr2",
                   "hasFP", "d", "packed"):
             if k in e:
                 rec[k] = e[k]
@@ -1331,7 +1460,7 @@ def run(ctx):
     def corrupt_f(tr):
         # a masked row of a column that was read back the second time holds a placeholder
         for e in tr:
-            if e["kind"] == "file":
+            if e["kind"] == "file" and not e["werr"] and not e["werr2"]:
                 for c in e["cout2"]:
                     if c["A"]["t"] in (1, 2, 3, 4, 5, 6) and c["A"]["v"]:
                         c["A"]["v"][-1] = 0 if c["A"]["v"][-1] else 1
@@ -1343,7 +1472,8 @@ def run(ctx):
         sel = clean[:3]
         sel = sel + [t for t in clean if any(e["kind"] == "compressx" for e in t) and not any(t is u for u in sel)][:3]
         nx = len(sel)
-        sel = sel + [t for t in clean if any(e["kind"] == "file" and any(c["A"]["t"] in (1, 2, 3, 4, 5) for c in e["cin"])
+        sel = sel + [t for t in clean if any(e["kind"] == "file" and not e["werr"] and not e["werr2"]
+                                             and any(c["A"]["t"] in (1, 2, 3, 4, 5) for c in e["cin"])
                                              for e in t) and not any(t is u for u in sel)][:2]
         calls = []
 
@@ -1356,7 +1486,7 @@ def run(ctx):
 
 
 MANIFEST = {
-    "technique": "TLA+ specification of the seven BinaryCIF encodings, their chains, BinaryCIFData serialisation and the candidate chains of compress() (specs/C05) model-checked by TLC; every enumerated (chain, array) case executed through BinaryCIFData.serialize -> msgpack -> deserialize; every case under every memory representation of its array; columns with masks under enumerated histories of read accesses; recorded random arrays, chains, compress() calls and files with access histories re-computed by TLC",
-    "level_text": "TLC enumerates integer arrays of every 8/16-bit type over their boundary values (length <=2, thorough 3, plus runs) and 32-bit arrays, float32/float64 arrays over dyadic values, NaN, infinities and large integers, and string arrays with empty and duplicate strings, each under the twelve chains compress() tries and explicit-parameter variants (narrow target types, wrong sizes, unsigned packing of negatives, given origins, fixed point with 4 factors, interval quantisation with 3 grids, string arrays with nested chains), and checks that the code-shaped model returns the array exactly / within half a fixed-point step / within the documented quantisation bin whenever the representation can hold it and refuses it otherwise, except in the two recorded classes; every case is then executed against the real encoders through msgpack and compared with the specification's outcome and acceptance interval. compress() is also enumerated as an operation: float32/float64 arrays (length <=2, thorough 3, optionally with a repeated tail) over decimal floats of every magnitude class from 1e-306 to 1e300 (more than 15 decimals, fractions, coordinates, the int32 boundary of the scaled values on both sides, one-sided overflow, zero, NaN, infinities, nine significant digits) x tolerances 1e-1..1e-8 (looser than, equal to and stricter than the default of compress()) and int32 arrays on the integer type boundaries, each case called at every container level (data, column, category, block, file); TLC checks that the modelled search for the decimals + int32 range check + lossless fall-back stays inside the relative tolerance, every case is executed through compress -> serialize -> (msgpack) -> deserialize and judged by TLC. Every enumerated case is executed under every memory representation the specification lists for its array (native, non-native byte order, strided, reversed, read-only, unaligned, all at once, 64-bit carrier, Python list), with one expectation; TLC checks that the code-shaped first encoding step does not depend on it outside one recorded class. Columns (int8/int32/float32/float64/string, 1-2 rows, every class of mask) are enumerated with every history of at most two read accesses (as_array with five dtype choices with/without masked_value, as_item, serialize, compress, write): TLC checks that the code-shaped accessors never change the column, the driver performs the history and compares the column in memory and the column read back from a written file with the specification's. Random arrays up to 60 elements of all dtypes in random representations with random chains and parameters, compress() at random container levels with tolerances 1e-1..1e-8 (fixed-point universe and decimal floats of any magnitude) and whole files with masks (random read accesses before writing, and on the file read back before writing it again) are recorded and re-computed by TLC.",
-    "level_note": "Bounded: exhaustive only for arrays of <=2 (thorough 3) elements over boundary value sets; longer arrays only through recorded runs. Floats are restricted to dyadic values on which float arithmetic is exact (plus NaN/inf/large integers); fixed-point factors <=1000. Delta / IntegerPacking arithmetic crossing +-2^31, UINT32 values >= 2^31 and int64 input are not decided (TLC integers are 32 bit). The encoded byte form is compared with the model as a diagnostic only. Histories longer than 2 (thorough 3) accesses and columns longer than 2 (3) rows only through recorded runs; the values an accessor returns are not judged. Recorded defects (unchecked float->int32 cast in FixedPoint, IntervalQuantization outside [min,max], Delta on a uint64 array with an element below the origin; all in encoding.pyx) are accepted only in their predicted shape; the four defects of compress() (unchecked cast reached through compress(), endless search for the decimals beyond the float range, factor 10^d >= 2^64 not serialisable, float32 range check at 2^31) are repaired in /repo, their predicates are FALSE and the situations they occurred in are still required to be enumerated. compress() of floats is judged on decimal floats where float rounding noise cannot change the number of decimals chosen (other arrays are skipped, counted); which of fixed point / raw bytes compress() picks is not modelled. Trusted: TLC, the TLA+ value parser, the float<->fixed-point projection, numpy, msgpack.",
+    "technique": "TLA+ specification of the seven BinaryCIF encodings, their chains, BinaryCIFData serialisation and the candidate chains of compress() (specs/C05) model-checked by TLC; every enumerated (chain, array) case executed through BinaryCIFData.serialize -> msgpack -> deserialize; every case under every memory representation of its array; columns with masks under enumerated histories of read accesses, in-place writes and re-assignments with every serialisation in between read back; recorded random arrays, chains, compress() calls and files with access histories re-computed by TLC",
+    "level_text": "TLC enumerates integer arrays of every 8/16-bit type over their boundary values (length <=2, thorough 3, plus runs) and 32-bit arrays, float32/float64 arrays over dyadic values, NaN, infinities and large integers, and string arrays with empty and duplicate strings, each under the twelve chains compress() tries and explicit-parameter variants (narrow target types, wrong sizes, unsigned packing of negatives, given origins, fixed point with 4 factors, interval quantisation with 3 grids, string arrays with nested chains), and checks that the code-shaped model returns the array exactly / within half a fixed-point step / within the documented quantisation bin whenever the representation can hold it and refuses it otherwise, except in the two recorded classes; every case is then executed against the real encoders through msgpack and compared with the specification's outcome and acceptance interval. compress() is also enumerated as an operation: float32/float64 arrays (length <=2, thorough 3, optionally with a repeated tail) over decimal floats of every magnitude class from 1e-306 to 1e300 (more than 15 decimals, fractions, coordinates, the int32 boundary of the scaled values on both sides, one-sided overflow, zero, NaN, infinities, nine significant digits) x tolerances 1e-1..1e-8 (looser than, equal to and stricter than the default of compress()) and int32 arrays on the integer type boundaries, each case called at every container level (data, column, category, block, file); TLC checks that the modelled search for the decimals + int32 range check + lossless fall-back stays inside the relative tolerance, every case is executed through compress -> serialize -> (msgpack) -> deserialize and judged by TLC. Every enumerated case is executed under every memory representation the specification lists for its array (native, non-native byte order, strided, reversed, read-only, unaligned, all at once, 64-bit carrier, Python list), with one expectation; TLC checks that the code-shaped first encoding step does not depend on it outside one recorded class. Columns (int8/int32/float32/float64/string, 1-2 rows, every class of mask) are enumerated with every history of at most two operations - read accesses (as_array with five dtype choices with/without masked_value, as_item, serialize, compress, write), in-place writes of one / all rows of the data array or the mask array the column holds, re-assignment of the column: TLC checks that the code-shaped accessors never change the column and that every serialisation gives the content of its moment (the write operations so far applied to what was built) or is refused because of the string table an earlier serialisation left in the encoding; the driver performs the history, reads back every serialize / write / compress in it and the final file, and compares them and the column in memory with the specification's. Random arrays up to 60 elements of all dtypes in random representations with random chains and parameters, compress() at random container levels with tolerances 1e-1..1e-8 (fixed-point universe and decimal floats of any magnitude) and whole files with masks (0-4 random read accesses, in-place writes and re-assignments before writing, and on the file read back before writing it again, every column serialisation in between read back) are recorded and re-computed by TLC.",
+    "level_note": "Bounded: exhaustive only for arrays of <=2 (thorough 3) elements over boundary value sets; longer arrays only through recorded runs. Floats are restricted to dyadic values on which float arithmetic is exact (plus NaN/inf/large integers); fixed-point factors <=1000. Delta / IntegerPacking arithmetic crossing +-2^31, UINT32 values >= 2^31 and int64 input are not decided (TLC integers are 32 bit). The encoded byte form is compared with the model as a diagnostic only. Histories longer than 2 (thorough 3: read-only histories and histories with a write operation in the middle) operations and columns longer than 2 (3) rows only through recorded runs; the values an accessor returns are not judged. Recorded defects (unchecked float->int32 cast in FixedPoint, IntervalQuantization outside [min,max], Delta on a uint64 array with an element below the origin; all in encoding.pyx) are accepted only in their predicted shape; the four defects of compress() (unchecked cast reached through compress(), endless search for the decimals beyond the float range, factor 10^d >= 2^64 not serialisable, float32 range check at 2^31) are repaired in /repo, their predicates are FALSE and the situations they occurred in are still required to be enumerated. compress() of floats is judged on decimal floats where float rounding noise cannot change the number of decimals chosen (other arrays are skipped, counted); which of fixed point / raw bytes compress() picks is not modelled. Trusted: TLC, the TLA+ value parser, the float<->fixed-point projection, numpy, msgpack.",
 }
